@@ -130,7 +130,22 @@ def run(ctx):
                "all %d Command variants have an explicit rollback arm" % len(vs) if not missing and "_" not in arms else
                "Command variants without an explicit rollback arm: %s (wildcard: %s)" % (missing, "_" in arms),
                rb.where if rb else "")
-        ctx.floor("R13c", "Command variants", len(vs), 12)
+        ctx.floor("R13c", "Command variants", len(vs), 1)
+    # R13e: nothing reachable from rollback records new undo commands (the undo stack was swapped out: a command
+    # pushed during rollback would survive the failed transaction and be executed by the *next* rollback)
+    if rb:
+        from lib.callgraph import CallGraph
+        cg = CallGraph(fa)
+        offenders = []
+        for p, (cb, parent, bb) in cg.closure([rb]).items():
+            if cb is rb or not common.norm(cb.npath).startswith(DB):
+                continue
+            if pushed_variants(cb):
+                offenders.append(common.norm(cb.npath))
+        ctx.ob("R13e", "rollback:no-undo-recording", not offenders,
+               "no function reachable from rollback pushes onto the undo stack" if not offenders else
+               "rollback reaches %s, which record(s) undo commands: they leak into the next transaction's rollback" % sorted(offenders),
+               rb.where)
 
     n_mut = 0
     for b in sorted(fa.find(r"^agdb::db::DbImpl::[a-z_]+$"), key=lambda x: x.line):
